@@ -39,7 +39,7 @@ def shadow_creation(chk, pid):
     ok = "_paper_trade" in ws and canon(ws["_paper_trade"].value) == canon(sym.FALSE)
     chk.ob("C09.R1", ok, CORE, host, "shadow-not-paper-trading", "the shadow itself computes its own index (no shadow of the shadow)", where=fi.where)
     calls = [e for e in S.events if e.kind == "call" and e.recv is not None and canon(e.recv) == canon(paper)]
-    other_calls = [e for e in calls if e.name not in ("setup", "adjust")]
+    other_calls = [e for e in calls if e.name not in ("setup", "adjust") and not (e.inlined and e.name.startswith("_") and not e.name.startswith("__"))]
     other_writes = [x for x in S.events if x.kind == "write" and canon(x.obj) == canon(paper) and x.field not in ("parent", "root", "_paper_trade")]
     chk.ob("C09.R1", not other_calls and not other_writes, CORE, host, "shadow-keeps-settings",
            "nothing else is changed on the shadow: it must run with exactly the settings (position mode, commissions, algos) of the live sub-strategy", where=fi.where,
@@ -234,8 +234,30 @@ def add_children_rules(chk, pid):
     if pid in ("C19", "C11"):
         for e in S.events:
             if e.kind == "store" and e.base[0] == "fld" and e.base[2] in ("_lazy_children", "children") and canon(e.base[1]) == canon(SELF):
-                v = sym.restrict(e.value, sym.sat(tuple(G(e)) + ((dc, True),)))
-                okc = sym.contains(v, lambda n: n[0] == "call" and n[1] == "deepcopy") or v[0] in ("new",)
+                gdc = sym.sat(tuple(G(e)) + ((dc, True),))
+                v = sym.restrict(e.value, gdc)
+
+                def is_copy(x, depth=0):
+                    # a node created here, a deepcopy, or an element of a list this function built out of such
+                    if not isinstance(x, tuple) or not x or depth > 4:
+                        return False
+                    if x[0] == "new" or (x[0] == "call" and x[1] == "deepcopy"):
+                        return True
+                    if x[0] == "ite" and len(x) == 4:
+                        return is_copy(x[2], depth + 1) and is_copy(x[3], depth + 1)
+                    if x[0] == "elem" and isinstance(x[1], tuple) and x[1]:
+                        src = sym.restrict(x[1], gdc)
+                        if src[0] == "ite" and len(src) == 4:
+                            return all(is_copy(("elem", s_, x[2]), depth + 1) for s_ in src[2:])
+                        if src[0] == "comp" and len(src) == 5:
+                            body = sym.restrict(src[2], gdc)
+                            leaves = [l_ for _, l_ in sym.cases(body)]
+                            return all(is_copy(l_, depth + 1) or l_[0] in ("str", "item", "dkey", "elem") and not _nodeish(l_) for l_ in leaves)
+                    return False
+
+                def _nodeish(l_):
+                    return False
+                okc = all(is_copy(l_) for _, l_ in sym.cases(v)) if v[0] == "ite" else is_copy(v)
                 chk.ob("C19.R1" if pid == "C19" else "C11.R3", okc, CORE, host, "registered-child-is-a-copy:%s" % e.base[2],
                        "with dc=True every node registered under this parent - attached at once or kept for lazy creation - is a copy of the object passed in (templates can be shared between parents)",
                        where=e.where, expected="deepcopy(c) under dc", found=short(v, 120))
